@@ -165,6 +165,23 @@ type Exec struct {
 	Points   int
 	Switches int
 	inHook   bool
+	StallsTaken []StallRec
+}
+
+// StallRec records one injected stall: the goroutine was held before the operation at Site.
+type StallRec struct {
+	Thread int
+	Site   string
+	What   string
+	MS     int64
+}
+
+// SiteKey returns the edit-stable part of a site id ("Func#k").
+func SiteKey(site string) string {
+	if i := strings.Index(site, "|"); i >= 0 {
+		return site[i+1:]
+	}
+	return site
 }
 
 // E is the current controlled execution (nil outside one).
@@ -457,6 +474,7 @@ func (e *Exec) point(o *op) {
 	if e.cfg.StallMenu && len(e.cfg.Stalls) > 0 {
 		if k := e.choose(KStall, 1+len(e.cfg.Stalls)); k > 0 {
 			t.stalledUntil = e.now + e.cfg.Stalls[k-1]
+			e.StallsTaken = append(e.StallsTaken, StallRec{Thread: t.ID, Site: o.site, What: o.what, MS: e.cfg.Stalls[k-1]})
 		}
 	}
 	t.pending = o
